@@ -3,7 +3,7 @@
 
 use crate::fw::*;
 use linfa::traits::{Fit, FitWith, Transformer};
-use linfa::{DatasetBase, Float, ParamGuard};
+use linfa::{DatasetBase, Float};
 use linfa_clustering::{Dbscan, GaussianMixtureModel, GmmError, IncrKMeansError, KMeans, KMeansError, Optics};
 use linfa_hierarchical::HierarchicalCluster;
 use linfa_kernel::{Kernel, KernelMethod};
